@@ -649,6 +649,41 @@ pub(crate) mod __verif_k {
     float_cmp_harness!(c06_float_eq, eq, ==);
     float_cmp_harness!(c06_float_neq, neq, !=);
 
+    /// the SAME object on both sides (`x == x`, a copy of a variable): still the IEEE answer - NaN is not equal to itself -
+    /// for all six comparisons; and every other value equals itself
+    #[kani::proof]
+    #[kani::stub(std::fmt::format, fmt_stub)]
+    fn c06_float_cmp_same_object() {
+        let x = f64::from_bits(kani::any());
+        let mut gc = std::mem::ManuallyDrop::new(GC::new());
+        let gc: &mut GC = &mut gc;
+        let a = Float::from_f64(x);
+        let b = a; // the same heap object
+        let want = [x == x, x != x, x < x, x <= x, x > x, x >= x];
+        let got = [a.eq(b, gc), a.neq(b, gc), a.lt(b, gc), a.lte(b, gc), a.gt(b, gc), a.gte(b, gc)];
+        let mut i = 0;
+        while i < 6 {
+            match &got[i] {
+                Ok(o) => assert!(o.tag() == Type::Bool && o.as_bool() == want[i]),
+                Err(_) => assert!(false),
+            }
+            i += 1;
+        }
+        assert!((a == b) == (x == x));
+        kani::cover!(x.is_nan());
+        kani::cover!(!x.is_nan());
+    }
+
+    #[kani::proof]
+    #[kani::unwind(8)]
+    fn c15_eq_reflexive() {
+        let (a, ma) = arb_scalar();
+        let b = a;
+        assert!((a == b) == model_eq(ma, ma));
+        kani::cover!(ma.ty() == 5);
+        kani::cover!(ma.ty() == 3);
+    }
+
     // ------------------------------------------------------------------ C06: strings
     /// independent lexicographic order on the UTF-8 bytes (== code point order)
     fn lex_cmp(a: &[u8], b: &[u8]) -> i8 {
